@@ -30,6 +30,10 @@ def run(ctx):
     rule_criteria(ctx, 'C13.R1')
     rule_acceptance(ctx, 'C13.R2')
     rule_forwarding(ctx, 'C13.R3')
+    # the container's per-cycle flag is computed over the slices of the slice cache: their boundaries must be the
+    # cycle boundaries (a short last slice drops the sample that meets the end-edge criterion)
+    from . import c15
+    c15.rule_cache(ctx, 'C13.R4')
 
 
 def rule_criteria(ctx, rid):
